@@ -48,7 +48,9 @@ Print Assumptions C24_untimed_schedule_independent.
 (* Second tie (DESIGN 3.5, docs/gotrans.md): mergeQueued as translated from queue/queue.go on this run is the
    hand model's merge (gen_merge = the generated function on the model's writes; greq = the *Request of a model
    batch without its ghost field; nil = None). *)
-From RQ Require Import Lib.GoLib Gen.Queue Proofs.C24_Gen.
+From RQ Require Import Lib.GoLib.
+From RQ Require Import Gen.Queue.
+From RQ Require Import Proofs.C24_Gen.
 Theorem C24_source_derived_eq : forall qs, gen_merge qs = option_map greq (merge qs).
 Proof. exact gen_mergeQueued_eq. Qed.
 Print Assumptions C24_source_derived_eq.
